@@ -19,6 +19,7 @@ import CtyModel.Lemmas.d14Fmt
 import CtyModel.Lemmas.d14Str
 import CtyModel.Lemmas.d14FormatList
 import CtyModel.Lemmas.d14Date
+import CtyModel.Lemmas.d14Regex
 import CtyModel.Props.C02
 namespace CtyModel
 namespace C14
@@ -716,6 +717,31 @@ theorem format_never_panics (L : Lib) (f : String) (args : List Value) :
     | panic w => rw [hx] at h; simp [Res.isPanic] at h
     | unmodelled => rfl
 
+/-! ## regex -/
+
+/-- **`regex` never panics** although it SLICES the subject by the index lists of the regexp
+package (`str[idx[2i]:idx[2i+1]]`) and INDEXES those lists: under the shape regexp documents for
+`FindStringSubmatchIndex` (`IdxOK`: one pair per group incl. the whole match; every pair
+(−1, −1) or 0 ≤ a ≤ b ≤ len(str); the whole match present) — probed on the real library on every
+run (`regexp-submatch-index-shape`) — no slice and no index expression of `regexPatternResult`
+is out of range, for every pattern and subject. -/
+theorem regex_never_panics (L : Lib) (pat str : String)
+    (hk : ∀ names idxs, L.regexCompile pat = some names → L.regexFind pat str = some idxs →
+      IdxOK str.utf8ByteSize names.length idxs) :
+    (regexImpl L [sv pat, sv str]).isPanic = false :=
+  regexImpl_no_panic L pat str hk
+
+/-- Values of `regex`: without capture groups the result is the matched part of the subject
+(`str[idx[0]:idx[1]]`, re-normalised); an invalid pattern and "no match" are the documented errors. -/
+theorem regex_value_and_errors (L : Lib) (pat str : String) :
+    (∀ idxs a b m, L.regexCompile pat = some [] → L.regexFind pat str = some idxs → idxs[0]? = some a →
+      idxs[1]? = some b → sliceBytes str a b = .ok m → regexImpl L [sv pat, sv str] = .ok (stringVal L.nfc m)) ∧
+    (L.regexCompile pat = none → regexImpl L [sv pat, sv str] = .err "invalid regexp pattern") ∧
+    (∀ names t, L.regexCompile pat = some names → regexResultType names = .ok t → L.regexFind pat str = none →
+      regexImpl L [sv pat, sv str] = .err "pattern did not match any part of the given string") :=
+  ⟨fun idxs a b m hc hf ha hb hs => regexImpl_whole_match L pat str idxs a b m hc hf ha hb hs,
+   (regexImpl_errors L pat str).1, (regexImpl_errors L pat str).2⟩
+
 /-! ## formatdate -/
 
 /-- The tokenizer of `formatdate` (`splitDateFormat`) loses nothing: the tokens, concatenated,
@@ -945,6 +971,15 @@ def exLib : Lib :=
     fmtFloat := fun _ _ => "", textG := fun _ => "", jsonStr := id }
 def exWide : VerbSyn := { flags := [], width := some "18446744073709551617".toList, prec := none, idx := none, mode := 'd' }
 example : formatAppend exLib (exWide.verb 0 1) [intVal 1] = .err "unsupported width" := by decide
+-- regex: the index-list law is satisfiable by a match with an unmatched group ("a(b)?" on "xa")
+example : IdxOK 2 1 [1, 2, -1, -1] := by
+  refine ⟨rfl, ?_, ?_⟩
+  · intro i hi a b ha hb
+    have : i = 0 ∨ i = 1 := by omega
+    rcases this with rfl | rfl
+    · simp at ha hb; subst ha hb; right; omega
+    · simp at ha hb; subst ha hb; left; omega
+  · intro a ha; simp at ha; omega
 -- formatdate: noon and midnight, a negative offset with minutes
 def exNoon : Time := ⟨2021, 6, 13, 0, 12, 7, 9, -12600⟩
 example : verbText exNoon 'H' 1 = .ok "12" ∧ verbText exNoon 'A' 2 = .ok "PM" := by decide
